@@ -19,6 +19,41 @@ CHECKS = {
         design='4/C20'),
 }
 
+CHECKS['C05'] = dict(
+    text='Kernel-checked theorem cfg_contains_executions: for every function skeleton (assign/if/while/for/break/continue/return/'
+         'raise/try-except-else-finally/with, any nesting), every decision sequence and any fuel, the executed node trace is a path '
+         'of the model graph from the entry to an exit node, jumps running through enclosing finally bodies and raises reaching '
+         'enclosing handlers (guard: no jump in an except body of a try with finally = known finding, with a refuted witness). '
+         'Tied on every run: the model graph is a sub-graph of what malt.pyct.cfg.build returns (same nodes, same error nodes) and '
+         'the trace semantics reproduces real CPython line traces under logged decisions, on seeded generated programs; oracle checks '
+         'Graph well-formedness (next/prev mirror, stmt_prev/stmt_next recomputed lexically) and path-ness of real traces on the real graph.',
+    note=NOTE_BASE + 'Modelled not verified: the imperative GraphBuilder (tied by sub-graph inclusion, so quirk edges of the '
+         'implementation are tolerated), lambda nodes (contracted), implicit exceptions (excluded by property and by cfg.py), '
+         'exceptions leaving a try-with-finally end the claimed trace.',
+    technique='Coq proof (induction on fuel, CPS edge model) + model/impl graph inclusion + CPython trace correspondence',
+    design='4/C05')
+CHECKS['C01'] = dict(
+    text='Partial proof: the pass pipeline extracted from PyToPy.transform_ast on every run is proved to satisfy the ordering '
+         'constraints the lowering passes rely on (pipeline_order_sound); lowering-pass theorems are added under coq/Lower as they '
+         'are completed. The end-to-end claim (13 passes + loader) is validated, not proved: a differential oracle runs original vs '
+         'malt.to_graph(original) on seeded generated programs x decision vectors x option sets (recursive on/off, feature sets) and '
+         'compares return value, ordered external-call log, exception type, mutated arguments and module globals.',
+    note=NOTE_BASE + 'Composition of all passes is validated by differential testing only. Known findings listed in '
+         'known_findings.json (for-loop target killed on the loop-exit edge; LISTS augmented subscript assignment).',
+    technique='Coq proof over generated pipeline table + differential testing against CPython (partial)',
+    design='4/C01')
+CHECKS['C16'] = dict(
+    text='Kernel-checked theorems state, for all call trees mixing every wrapper of the API with exceptions raised at any node and '
+         'swallowed at any ancestor, that the per-thread context stack is restored to the very same objects on every exit, that the '
+         'identity assert never fires, that the status inside do_not_convert and user-requested converted regions is as specified, and '
+         'that under any interleaving no thread is ever disturbed. The model interprets tables regenerated from the source on every '
+         'run (fail-closed translator, side conditions re-proved by vm_compute) and is tied by exhaustive two-level plus random '
+         'trace correspondence on the real API from 1 to 8 threads (thorough: 16).',
+    note=NOTE_BASE + 'Thread-locality of threading.local itself is CPython\'s; wrapped callables are plain functions (no generators / '
+         'coroutines); no asynchronous exceptions between __enter__ and the with body.',
+    technique='generated tables + interpreter model, induction over call trees and schedules, trace correspondence',
+    design='4/C16')
+
 NOT_YET = {}
 
 
